@@ -102,13 +102,14 @@ Proof.
   - now apply IH.
 Qed.
 Theorem reject_too_many_G : forall st ns net name fields rest ty id rules,
+  no_empty_ns name = true ->
   match_type G (last_str (split_on DOT name)) = Some (ty, id) ->
   In (ty, rules) (g_dict G) -> max_params rules < length fields ->
   parse_cpt G st ns net name fields rest = Err ETooMany.
 Proof.
-  intros st ns net name fields rest ty id rules Hm Hin Hmax.
+  intros st ns net name fields rest ty id rules Hn Hm Hin Hmax.
   assert (Hd : assoc_get ty (g_dict G) = Some rules) by (apply assoc_get_in; [vm_compute; reflexivity|exact Hin]).
-  apply (reject_too_many G st ns net name fields rest ty id rules Hm Hd).
+  apply (reject_too_many G st ns net name fields rest ty id rules Hn Hm Hd).
   - pose proof types_wf as T. rewrite forallb_forall in T. specialize (T _ Hin). cbn [snd] in T.
     intros ->. discriminate.
   - apply Forall_forall. intros r Hr. pose proof (max_params_ge rules 0 r Hr). unfold max_params in Hmax. lia.
